@@ -11,4 +11,14 @@ def _shapes():
     return shapes.generate()
 
 
-ALL = [("QuadTables", _quad), ("Shapes", _shapes)]
+def _helpers():
+    from . import helpers
+    return helpers.generate()[0]          # generate() returns (changed, results, failures)
+
+
+def _affine():
+    from . import affine
+    return affine.generate()
+
+
+ALL = [("QuadTables", _quad), ("Shapes", _shapes), ("HelperFormulas", _helpers), ("AffineFormulas", _affine)]
